@@ -307,7 +307,9 @@ def split_requests(path, nchunks, d):
 
 # --------------------------------------------------------------------------- harness
 def run_harness(args, timeout=900):
-    rc, out = sh([BIN, *args], timeout=timeout)
+    scratch = os.path.join(WORK, "scratch")
+    os.makedirs(scratch, exist_ok=True)
+    rc, out = sh([os.path.join(HARNESS, "target", "debug", "wbverif"), *args], timeout=timeout, env={"WBVERIF_SCRATCH": scratch})
     if rc != 0:
         raise ToolError(f"harness {' '.join(args)} failed ({rc}):\n{out[-3000:]}")
     return out
